@@ -14,6 +14,7 @@ pub mod logger_handle {
         //@   ret r
         //@   props C05
         //@   req[WritersHandle::set_new_spec.perm] WritersHandle::wset_ok(new_spec)
+        //@   ens r is Ok && self.active_after() == new_spec
         //@ sig src/logger_handle.rs impl WritersHandle / fn reconfigure
         //@   props C05
         //@   req[WritersHandle::reconfigure.noperm] false
@@ -23,8 +24,12 @@ pub mod logger_handle {
     //@   props C05
     //@   req[LoggerHandle::set_new_spec.pre.perm] forall|s: LogSpecification| #[trigger] WritersHandle::wset_ok(s) <==> s == new_spec
     //@   closure 1 sig |e: FlexiLoggerError| -> (r: ())
+    //@   ens[LoggerHandle::set_new_spec.post.written] self.active_after() == new_spec
+    //@   count 1 .set_new_spec(
     //@   canary
     }
 }
 }
+// plain-Rust glue outside verus! (never executed, not verified): the shim has the real type's Display so that code using it still parses
+impl std::fmt::Display for log_specification::LogSpecification { fn fmt(&self, _f: &mut std::fmt::Formatter) -> std::fmt::Result { Ok(()) } }
 fn main() {}
